@@ -8,6 +8,7 @@
 #include <stdio.h>
 #include <string.h>
 #include <stdint.h>
+#include <stdlib.h>
 
 extern "C" {
 int __tsan_get_report_data(void *report, const char **description, int *count, int *stack_count, int *mop_count, int *loc_count, int *mutex_count, int *thread_count,
@@ -78,7 +79,19 @@ extern "C" void __tsan_on_report(void *report) {
 		int n = 0; while (n < 32 && trace[n]) ++n;
 		pcs[m] = responsible_frame(trace, n);
 	}
-	if (!pcs[0] || !pcs[1]) { ++g_rejected; return; }
+	if (!pcs[0] || !pcs[1]) {
+		++g_rejected;
+		if (getenv("RXSIM_TSAN_DEBUG")) {
+			for (int m = 0; m < 2; ++m) {
+				void *trace[32]; memset(trace, 0, sizeof trace); void *addr = nullptr; int atomic = 0, t2, s2, w2;
+				__tsan_get_report_mop(report, (unsigned long)m, &t2, &addr, &s2, &w2, &atomic, trace, 32);
+				fprintf(stderr, "REJECTED mop%d tid=%d w=%d size=%d:", m, t2, w2, s2);
+				for (int i = 0; i < 8 && trace[i]; ++i) { uintptr_t p = (uintptr_t)trace[i]; fprintf(stderr, " %s+0x%lx", in_lib(p) ? "lib" : in_exe(p) ? "exe" : "other", (unsigned long)(in_lib(p) ? p - g_lib_lo : in_exe(p) ? p - g_exe_lo : p)); }
+				fprintf(stderr, "\n");
+			}
+		}
+		return;
+	}
 	char loc[96] = "loc=unknown";
 	if (locs > 0) {
 		const char *type = nullptr; void *laddr = nullptr; unsigned long start = 0, size = 0; int ltid = 0, fd = 0, supp = 0; void *tr[4];
